@@ -53,7 +53,7 @@ Lemma run_agg_snoc : forall f rows s r,
 Proof.
   induction rows as [|a t IH]; intros s r; cbn [app run_agg].
   - cbn [sbind]. destruct (update f s r); reflexivity.
-  - destruct (update f s a); cbn [sbind]; [apply IH|reflexivity|reflexivity].
+  - destruct (update f s a); cbn [sbind]; [apply IH|reflexivity..].
 Qed.
 
 (* the states of a group are the folds of update over the rows of the group *)
@@ -72,8 +72,8 @@ Lemma update_all_ok : forall fs ss rows r ss',
 Proof.
   intros fs ss rows r ss' H. revert ss'. induction H as [|f s fs' ss0 H1 H2 IH]; intros ss' U; cbn [update_all] in U.
   - injection U as <-. constructor.
-  - destruct (update f s r) as [a| |] eqn:Ua; cbn [sbind] in U; try discriminate.
-    destruct (update_all fs' ss0 r) as [l| |] eqn:Ul; cbn [sbind] in U; try discriminate.
+  - destruct (update f s r) as [a| | |] eqn:Ua; cbn [sbind] in U; try discriminate.
+    destruct (update_all fs' ss0 r) as [l| | |] eqn:Ul; cbn [sbind] in U; try discriminate.
     injection U as <-. constructor; [|apply IH; reflexivity].
     rewrite run_agg_snoc, H1. cbn [sbind]. exact Ua.
 Qed.
@@ -84,10 +84,10 @@ Lemma hash_aggregate_snoc : forall keys fs rows r tbl,
         (fun tbl' => sbind (key_of keys r) (fun kv => insert_row fs (fst kv) (snd kv) r tbl')).
 Proof.
   induction rows as [|a t IH]; intros r tbl; cbn [app hash_aggregate sbind].
-  - destruct (key_of keys r) as [kv| |]; cbn [sbind]; try reflexivity.
+  - destruct (key_of keys r) as [kv| | |]; cbn [sbind]; try reflexivity.
     destruct (insert_row fs (fst kv) (snd kv) r tbl); reflexivity.
-  - destruct (key_of keys a) as [kv| |]; cbn [sbind]; try reflexivity.
-    destruct (insert_row fs (fst kv) (snd kv) a tbl); cbn [sbind]; [apply IH|reflexivity|reflexivity].
+  - destruct (key_of keys a) as [kv| | |]; cbn [sbind]; try reflexivity.
+    destruct (insert_row fs (fst kv) (snd kv) a tbl); cbn [sbind]; [apply IH|reflexivity..].
 Qed.
 
 Section Keys.
@@ -179,7 +179,7 @@ Section Keys.
   Proof.
     intros fs k r tbl G tbl' H. revert tbl'. induction H as [|e g tbl G He Ht IH]; intros tbl' F Pk O I.
     - cbn [insert_row] in I.
-      destruct (update_all fs (map (fun _ => st0) fs) r) as [ss| |] eqn:U; cbn [sbind] in I; try discriminate.
+      destruct (update_all fs (map (fun _ => st0) fs) r) as [ss| | |] eqn:U; cbn [sbind] in I; try discriminate.
       injection I as <-. cbn [map existsb app]. constructor; [|constructor].
       split; [reflexivity|split; [reflexivity|]]. cbn [snd].
       apply (update_all_ok fs _ [] r ss (init_states_ok fs) U).
@@ -187,7 +187,7 @@ Section Keys.
       cbn [map] in F, O. inversion F as [|? ? Pg Ft]; subst. inversion O as [|? ? Og Ot]; subst.
       cbn [insert_row] in I. rewrite <- (Hc k (fst g) Pk Pg) in I.
       cbn [map existsb]. destruct (key_same k (fst g)) eqn:Q; cbn [orb].
-      + destruct (update_all fs ss r) as [ss'| |] eqn:U; cbn [sbind] in I; try discriminate. injection I as <-.
+      + destruct (update_all fs ss r) as [ss'| | |] eqn:U; cbn [sbind] in I; try discriminate. injection I as <-.
         rewrite (same_sym (fst g) k Pg Pk), Q. constructor.
         * split; [reflexivity|split; [reflexivity|]]. cbn [fst snd]. eapply update_all_ok; eauto.
         * replace (map (fun g0 : list value * list row => if key_same (fst g0) k then (fst g0, snd g0 ++ [r]) else g0) G) with G; [exact Ht|].
@@ -196,7 +196,7 @@ Section Keys.
           destruct (key_same (fst g') k) eqn:Q'; [|reflexivity]. exfalso.
           rewrite Forall_forall in Og. specialize (Og (fst g') (in_map fst _ _ Hg')). cbn beta in Og.
           rewrite (same_trans (fst g') k (fst g) Pg' Pk Pg Q' Q) in Og. discriminate.
-      + destruct (insert_row fs (cls k) k r tbl) as [t'| |] eqn:R; cbn [sbind] in I; try discriminate. injection I as <-.
+      + destruct (insert_row fs (cls k) k r tbl) as [t'| | |] eqn:R; cbn [sbind] in I; try discriminate. injection I as <-.
         specialize (IH t' Ft Pk Ot eq_refl).
         rewrite (same_sym (fst g) k Pg Pk), Q.
         destruct (existsb (key_same k) (map fst G)); cbn [app]; (constructor; [split; [reflexivity|split; [reflexivity|exact Hs]]|exact IH]).
@@ -211,7 +211,7 @@ Section Keys.
     intros keys fs krs. induction krs as [|[k r] krs IH] using rev_ind; intros tbl Hk F H.
     - cbn in H. injection H as <-. constructor.
     - rewrite map_app in H, F. cbn [map fst snd] in H, F. rewrite hash_aggregate_snoc in H.
-      destruct (hash_aggregate keys fs (map snd krs) []) as [tbl1| |] eqn:H1; cbn [sbind] in H; try discriminate.
+      destruct (hash_aggregate keys fs (map snd krs) []) as [tbl1| | |] eqn:H1; cbn [sbind] in H; try discriminate.
       apply Forall_app in Hk as [Hk1 Hk2]. inversion Hk2 as [|? ? Hkr _]; subst. cbn [fst snd] in Hkr.
       rewrite Hkr in H. cbn [sbind fst snd] in H.
       apply Forall_app in F as [F1 F2]. inversion F2 as [|? ? Pk _]; subst.
